@@ -110,3 +110,39 @@ func VerifH_C17_matchRules() {
 	vf.Assert(got == want, "rule-set-combines-its-rules")
 	vf.Reach("rule-set-evaluated")
 }
+
+// C17 / C13 / C20: match rules on multi-byte text. Lower-casing can change the byte length of the compared
+// window (KELVIN SIGN U+212A: 3 bytes -> "k": 1 byte; U+0130: 2 bytes -> 3 bytes), whatever the mode: a rule
+// never crashes on such data, and the verdicts that do not depend on where a byte window cuts a character are
+// the textbook ones.
+func VerifH_C17_matchRulesUnicode() {
+	cases := []struct {
+		mode   Mode
+		values []string
+		data   string
+		want   int // 1 true, 0 false, -1 only "does not crash"
+	}{
+		{ModeSuffix, []string{"id", "password"}, "sensor 1234 temp 300K 5K", 0},
+		{ModeSuffix, []string{"k", "kk"}, "5KK", -1},
+		{ModePrefix, []string{"k5", "kelvin"}, "KK5", -1},
+		{ModePrefix, []string{"i", "istanbul"}, "İİİx", -1},
+		{ModeSuffix, []string{"x", "istanbul"}, "xİİİ", -1},
+		{ModeContains, []string{"k 5"}, "300K 5K", 1},
+		{ModeSuffix, []string{"к"}, "ЁЛК", 1},   // "к" vs "ЁЛК"
+		{ModePrefix, []string{"ёл"}, "ЁЛКА", 1}, // "ёл" vs "ЁЛКА"
+		{ModeContains, []string{"лк"}, "ЁЛКА", 1},
+		{ModeSuffix, []string{"ка", "zz"}, "ЁЛК", 0},
+	}
+	c := cases[vf.Choose("case", len(cases))]
+	r := Rule{Mode: c.mode, CaseInsensitive: true, Values: append([]string(nil), c.values...), Invert: vf.Choose("invert", 2) == 1}
+	r.Prepare()
+	got := r.Match([]byte(c.data))
+	if vf.Param("twin", 0) == 1 {
+		vf.Assert(c.want < 0 || got == ((c.want == 1) == r.Invert), "twin")
+		return
+	}
+	if c.want >= 0 {
+		vf.Assert(got == ((c.want == 1) != r.Invert), "rule-verdict-on-multi-byte-text")
+	}
+	vf.Reach("unicode-rules-checked")
+}
